@@ -47,12 +47,16 @@ package executors
 //@ func (*PeriodicalExecutor).addAndCheck
 //@   prop C16
 //@   opaque backgroundFlush
+//@   guards pe.lock: pe.guarded, pe.inflight
 //@   requires pe != nil
+//@   let locked = on("lock", pe.lock)
 //@   ensures [add-once] calls(pe.container.AddTask, task) == 1
-//@   ensures [full-batch-taken] ret(AddTask) ==> result1 && result0 == ret(RemoveAll) && calls(RemoveAll) == 1 && pe.inflight == old(pe.inflight) + 1
-//@   ensures [not-full] !ret(AddTask) ==> !result1 && result0 == nil && calls(RemoveAll) == 0 && pe.inflight == old(pe.inflight)
+//@   ensures [full-batch-taken] ret(AddTask) ==> result1 && result0 == ret(RemoveAll) && calls(RemoveAll) == 1 && pe.inflight == at(locked, pe.inflight) + 1
+//@   ensures [not-full] !ret(AddTask) ==> !result1 && result0 == nil && calls(RemoveAll) == 0 && pe.inflight == at(locked, pe.inflight)
 //@   ensures [under-lock] before("lock", AddTask) && before(AddTask, "unlock") && before(RemoveAll, "unlock") && calls("lock") == 1 && calls("unlock") == 1
-//@   ensures [flusher-started-iff-none] (calls(backgroundFlush) == 1) == !old(pe.guarded) && pe.guarded
+// (whether a flusher is alive is read under the lock: a flusher that retired concurrently, under the same lock,
+// is seen as gone and replaced)
+//@   ensures [flusher-started-iff-none] (calls(backgroundFlush) == 1) == !at(locked, pe.guarded) && pe.guarded && before(on("unlock", pe.lock), backgroundFlush)
 
 // Add: a batch taken by this call is handed to the flusher and the adder waits for its confirmation.
 //@ func (*PeriodicalExecutor).Add
@@ -93,9 +97,11 @@ package executors
 // shallQuit: the flusher retires only when nothing is in flight, decided under the lock together with `guarded`.
 //@ func (*PeriodicalExecutor).shallQuit
 //@   prop C16
+//@   guards pe.lock: pe.guarded, pe.inflight
 //@   requires pe != nil
 //@   ensures [quit-only-idle-and-empty] result ==> pe.inflight == 0 && !pe.guarded && ret(timex.Now) - last > pe.interval * 10
-//@   ensures [stay] !result ==> pe.guarded == old(pe.guarded)
+//@   ensures [stay] !result && calls("lock") == 1 ==> pe.guarded == at(on("lock", pe.lock), pe.guarded)
+//@   ensures [in-flight-read-under-the-lock] result ==> at(on("lock", pe.lock), pe.inflight) == 0
 //@   ensures [decided-under-lock] result ==> calls("lock") == 1 && calls("unlock") == 1
 
 // The flusher goroutine. A batch handed over by Add is first registered as an execution in progress
@@ -112,3 +118,81 @@ package executors
 //@   loop 1 iteration-ensures [tick-executes-nothing-itself] !commandedNow ==> calls(enterExecution) == 0 && calls("send") == 0 && calls(executeTasks) == 0 && pe.inflight == at_head(pe.inflight)
 //@   ensures [quits-only-when-idle] calls(shallQuit) == 1 && ret(shallQuit) && calls(executeTasks) == 0
 //@   ensures [final-flush-and-ticker-stopped] calls(pe.Flush) == 2 && calls(Stop) == 1
+
+// Registration of an execution happens inside the barrier that Wait also passes through, so a Wait either sees the
+// execution registered or runs entirely before it; the sign-off is one Done.
+//@ func (*PeriodicalExecutor).enterExecution
+//@   prop C16
+//@   inline always
+//@   requires pe != nil
+//@   ensures [registered-inside-the-barrier] calls("wg.Add") == 1 && arg("wg.Add", 0) == 1 && calls(on("lock", pe.wgBarrier.lock)) == 1 && before(on("lock", pe.wgBarrier.lock), "wg.Add") && before("wg.Add", on("unlock", pe.wgBarrier.lock))
+//@ func (*PeriodicalExecutor).doneExecution
+//@   prop C16
+//@   inline always
+//@   requires pe != nil
+//@   ensures [one-sign-off] calls("wg.Done") == 1
+//@ func (*PeriodicalExecutor).Sync
+//@   prop C16
+//@   may-panic fn
+//@   requires pe != nil
+//@   ensures [under-lock] calls(fn) == 1 && before(on("lock", pe.lock), fn) && before(fn, on("unlock", pe.lock))
+//@   panic-ensures [released-on-panic] calls(on("unlock", pe.lock)) == 1
+// hasTasks: nil has none; a collection has tasks iff it is non-empty; anything else is left to the container.
+//@ func (*PeriodicalExecutor).hasTasks
+//@   prop C16
+//@   ensures [nil-none] tasks == nil ==> !result
+//@   ensures [collection-by-length] tasks != nil && (ret(Kind) == 17 || ret(Kind) == 18 || ret(Kind) == 21 || ret(Kind) == 23) ==> result == (ret(Len) > 0)
+//@   ensures [other-kinds-executed] tasks != nil && !(ret(Kind) == 17 || ret(Kind) == 18 || ret(Kind) == 21 || ret(Kind) == 23) ==> result
+
+// Bulk / chunk executors: thin wrappers - every Add reaches the periodical executor once (a chunk with its size),
+// Flush and Wait are the periodical executor's; the container gets the configured threshold and execute function.
+//@ func (*BulkExecutor).Add
+//@   prop C16
+//@   opaque Add
+//@   requires be != nil
+//@   ensures [forwards] calls(be.executor.Add, task) == 1 && result == nil
+//@ func (*BulkExecutor).Flush
+//@   prop C16
+//@   opaque Flush
+//@   requires be != nil
+//@   ensures [forwards] calls(be.executor.Flush) == 1
+//@ func (*BulkExecutor).Wait
+//@   prop C16
+//@   opaque Wait
+//@   requires be != nil
+//@   ensures [forwards] calls(be.executor.Wait) == 1
+//@ func (*ChunkExecutor).Add
+//@   prop C16
+//@   opaque Add
+//@   requires be != nil
+//@   ensures [forwards-with-size] calls(be.executor.Add) == 1 && typeis(arg(be.executor.Add, 1), chunk) && unbox(arg(be.executor.Add, 1), chunk).val == task && unbox(arg(be.executor.Add, 1), chunk).size == size && result == nil
+//@ func (*ChunkExecutor).Flush
+//@   prop C16
+//@   opaque Flush
+//@   requires be != nil
+//@   ensures [forwards] calls(be.executor.Flush) == 1
+//@ func (*ChunkExecutor).Wait
+//@   prop C16
+//@   opaque Wait
+//@   requires be != nil
+//@   ensures [forwards] calls(be.executor.Wait) == 1
+//@ func NewBulkExecutor
+//@   prop C16
+//@   opaque NewPeriodicalExecutor, newBulkOptions
+//@   loop 1 invariant -1 <= rangeindex
+//@   ensures [container-wired] result != nil && result.container != nil && result.container.execute == execute && result.executor == ret(NewPeriodicalExecutor) && unbox(arg(NewPeriodicalExecutor, 1), ptr(bulkContainer)) == result.container
+//@   ensures [configured-threshold-and-interval] result.container.maxTasks == local(options).cachedTasks && arg(NewPeriodicalExecutor, 0) == local(options).flushInterval && (len(opts) == 0 ==> local(options).cachedTasks == ret(newBulkOptions).cachedTasks)
+//@ func NewChunkExecutor
+//@   prop C16
+//@   opaque NewPeriodicalExecutor, newChunkOptions
+//@   loop 1 invariant -1 <= rangeindex
+//@   ensures [container-wired] result != nil && result.container != nil && result.container.execute == execute && result.executor == ret(NewPeriodicalExecutor) && unbox(arg(NewPeriodicalExecutor, 1), ptr(chunkContainer)) == result.container
+//@   ensures [configured-threshold-and-interval] result.container.maxChunkSize == local(options).chunkSize && arg(NewPeriodicalExecutor, 0) == local(options).flushInterval && (len(opts) == 0 ==> local(options).chunkSize == ret(newChunkOptions).chunkSize)
+//@ func WithBulkTasks$1
+//@   prop C16
+//@   requires options != nil
+//@   ensures options.cachedTasks == tasks
+//@ func WithChunkBytes$1
+//@   prop C16
+//@   requires options != nil
+//@   ensures options.chunkSize == size
